@@ -768,7 +768,9 @@ pub fn t_pipe(rng: &mut Rng, profile: &'static str, run_seed: u64, miri: bool, t
     let preloaded = rng.below(n_items as u64 + 1).min(if rng.chance(1, 2) { 0 } else { 8 }) as usize;
     let close = !drop_output && rng.chance(4, 5);
     let preclosed = close && preloaded == n_items && rng.chance(1, 2);
-    prog.pipes.push(PipeDef { obj: 0, through, depth, items: items.clone(), preloaded, preclosed, mpsc: !drop_output && rng.chance(1, 4), register_first: rng.chance(1, 3), keep_waker: rng.chance(1, 3), chain_to: None });
+    // (a pipe_in whose target may lose its last owner at any moment, fed by a stream that keeps waking the pipe from inside its own poll)
+    let self_wakes = if mortal && !through && rng.chance(1, 3) { rng.range(20, 300) as usize } else { 0 };
+    prog.pipes.push(PipeDef { obj: 0, through, depth, items: items.clone(), preloaded, preclosed, mpsc: !drop_output && self_wakes == 0 && rng.chance(1, 4), register_first: rng.chance(1, 3), keep_waker: rng.chance(1, 3), chain_to: None, self_wakes });
     // creator / consumer thread
     let mut t0 = vec![TAct::PipeCreate(0)];
     if through {
@@ -869,7 +871,7 @@ pub fn t_pipe_chain(rng: &mut Rng, profile: &'static str, run_seed: u64, miri: b
         let mut items = vec![];
         for _ in 0..n_items { let b = item_body(rng, &mut prog, 10); let id = prog.add_op(p, Kind::PipeItem, Disp::None, b); prog.ops[id].pipe = Some(p); items.push(id); }
         for _ in 0..n_items { prog.pusher.push(FAct::Item(p)); }
-        prog.pipes.push(PipeDef { obj: p, through: false, depth: 5, items, preloaded: 0, preclosed: false, mpsc: false, register_first: rng.chance(1, 2), keep_waker: rng.chance(1, 3), chain_to: if p == 0 { Some(1) } else { None } });
+        prog.pipes.push(PipeDef { obj: p, through: false, depth: 5, items, preloaded: 0, preclosed: false, mpsc: false, register_first: rng.chance(1, 2), keep_waker: rng.chance(1, 3), chain_to: if p == 0 { Some(1) } else { None }, self_wakes: 0 });
     }
     let mut pusher = std::mem::take(&mut prog.pusher);
     rng.shuffle(&mut pusher);
